@@ -3,6 +3,7 @@ import RedactVerif.Proofs.BufferInv
 import RedactVerif.Props.L2
 import RedactVerif.Props.FactsConsts
 import RedactVerif.Props.FactsSkelBuffer
+import RedactVerif.Props.TransBuffer
 /-
 C01 — every produced string is a well-formed redactable string
 (and C03's "no envelope spans a line break": `WFL` = well-formed + line-safe).
@@ -55,6 +56,15 @@ hands out is a well-formed, line-safe redactable. -/
 theorem buffer_wf (ops : List Op) (h : RunOk Buffer.init ops) :
     WFL (tokenize (Buffer.init.run ops).redactableBytes) :=
   (obtainable_finalize _ (inv_run _ ops inv_init h)).2
+
+/-- **C01/C03 on the code as translated from the source**: any sequence of calls of the methods of
+`buffer.Buffer` as /verif/extract reads them off `internal/buffer/buffer.go` on every run
+(`Generated/Trans.lean`), starting from the zero `Buffer`, hands out a well-formed, line-safe
+redactable — because those methods compute the model's (`transRun_conc`, Props/TransBuffer.lean). -/
+theorem translated_buffer_wf (ops : List Op) (h : RunOk Buffer.init ops) :
+    WFL (tokenize (Trans.RedactableBytes (transRun (conc Buffer.init) ops))) := by
+  rw [transRun_conc, redactableBytes_translated]
+  exact buffer_wf ops h
 
 /-- Every output is itself acceptable as a raw (pre-redactable) write later on. -/
 theorem outputs_obtainable (ops : List Op) (h : RunOk Buffer.init ops) :
